@@ -298,6 +298,11 @@ class HostileWorld(MediaBase):
             if cls is None:
                 return await orig(data, *a, **kw)
             metered = self.meter_start()
+            import tracemalloc
+            mem0 = None
+            if not tracemalloc.is_tracing():
+                tracemalloc.start()
+                mem0 = tracemalloc.get_traced_memory()[0]
             try:
                 return await orig(data, *a, **kw)
             except CostExceeded as exc:
@@ -306,6 +311,18 @@ class HostileWorld(MediaBase):
                                    len(data), cls, label, self.COST_LIMIT, exc))
                 raise ForgedKilled()
             finally:
+                if mem0 is not None:
+                    peak = tracemalloc.get_traced_memory()[1] - mem0
+                    tracemalloc.stop()
+                    self.probes["memory_samples"] += 1
+                    self.max_mem = max(getattr(self, "max_mem", 0), peak)
+                    # "memory out of proportion": far beyond what handling one datagram can need (whatever else runs
+                    # while the handler is suspended in a send is counted too, hence the generous constant)
+                    mbound = 8_000_000 + 4000 * len(data)
+                    if peak > mbound:
+                        self.violation("C05", "memory-out-of-proportion:%s" % cls,
+                                       "a %d-byte %s datagram made %s allocate %d bytes at peak (bound %d)" % (
+                                           len(data), cls, label, peak, mbound))
                 if metered:
                     cost = self.meter_stop()
                     self.probes["cost_samples"] += 1
@@ -908,6 +925,7 @@ class HostileWorld(MediaBase):
 
     def sample(self):
         return {"injected": self.injected, "max_cost_lines": getattr(self, "max_cost", 0),
+                "max_peak_bytes": getattr(self, "max_mem", 0),
                 "classes": [o["cls"] for o in self.ops if o["op"] == "inject"][:8]}
 
 
